@@ -196,12 +196,7 @@ theorem ackBlock_spec (s : Tcb) (seg : Hdr) :
       dsimp only
       split <;> exact ⟨_, _, rfl, ⟨rfl, rfl, rfl⟩, Iff.rfl⟩
     · -- TIME-WAIT
-      rename_i hst
-      simp only [enqueueThen_eq]
-      refine ⟨_, _, rfl, ?_, ?_⟩
-      · have := same_enqueueBuilt s (((s.headerBuilder s.snd.nxt).withAck (seg.seq + 1)).withWnd s.rcv.wnd).built
-        exact ⟨this.mtu, this.rcv, this.incoming⟩
-      · simp only [state_enqueueBuilt]
+      exact ⟨_, _, rfl, Same.refl _, Iff.rfl⟩
 
 /-- block 3 changes nothing -/
 theorem rstBlock_spec (s : Tcb) (seg : Hdr) : ∃ r, rstBlock s seg = .ok (s, r) := by
